@@ -66,6 +66,10 @@ func (vc *VC) globalPlace(g *ssa.Global) Val {
 				c := vc.epochGet(vc.constEpoch, comp)
 				vc.sentinels = append(vc.sentinels, c)
 			}
+			if k, ok := vc.P.bigIntConst(g); ok && isPointer(t) && isBigInt(derefType(t)) {
+				c := vc.epochGet(vc.constEpoch, comp)
+				vc.bigConsts[c.S] = k
+			}
 		}
 	}
 	return Val{P: &Place{Kind: BGlobal, Comp: comp, Root: t, Typ: t}}
@@ -383,7 +387,21 @@ func (vc *VC) alloc(fr *Frame, st *State, a *ssa.Alloc) {
 	comp := vc.ptrComp(t)
 	p := &Place{Kind: BPtr, Comp: comp, Ref: ref, Root: t, Typ: t}
 	vc.setRoot(st, p, vc.zeroOf(t))
+	vc.initAux(st, t, ref)
 	vc.setVal(fr, a, Val{P: p})
+}
+
+// initAux zero-initialises the auxiliary (precision, mode) components of a fresh big.Float.
+func (vc *VC) initAux(st *State, t types.Type, ref Term) {
+	if !isBigFloat(t) {
+		return
+	}
+	for _, which := range []string{"prec", "mode"} {
+		comp := "X:big.Float." + which
+		vc.registerComp(comp, sortArray(sortRef, sortInt))
+		h := vc.heapGet(st.heap, comp)
+		st.heap.known[comp] = vc.define(comp, tStore(h, ref, mk("0", sortInt)))
+	}
 }
 
 // ---------------------------------------------------------------- checks
